@@ -31,8 +31,8 @@ CLASSES = (["EOF", "EOF", "ComplexEOF", "HilbertEOF", "EOFRotator", "ComplexEOFR
 
 
 @st.composite
-def strategy(draw):
-    cls = draw(st.sampled_from(CLASSES))
+def strategy(draw, cls=None):
+    cls = cls or draw(st.sampled_from(CLASSES))  # (the runner stratifies: every shard runs its slice of CLASSES, one class at a time)
     d = draw(cases.model_case([cls], full_modes=True, min_samples=6, powers=(1, 2)))
     if M.is_hilbert_cls(cls):
         d["spec"]["padding"] = draw(st.sampled_from(["exp", None]))
